@@ -86,11 +86,11 @@ def app_answer(hbh, e2e, app=16777251, cmd=316, result=2001, payload=b"", sid=b"
 
 # ---------------------------------------------------------------------- world
 class World:
-    def __init__(self, role="client", apps=(), watchdog=30, choices=None, line_preempt=False, max_steps=400000):
+    def __init__(self, role="client", apps=(), watchdog=30, choices=None, line_preempt=False, max_steps=400000, line_holds=False):
         common.bootstrap()
         self.role = role
         self.apps = list(apps)
-        self.sched = Scheduler(choices=choices, line_preempt=line_preempt,
+        self.sched = Scheduler(choices=choices, line_preempt=line_preempt, line_holds=line_holds,
                                trace_prefix=common.REPO.rstrip("/") + "/bromelia/", max_steps=max_steps)
         self.net = Net(self.sched)
         self.patch = Patch(self.sched, self.net)
